@@ -287,12 +287,12 @@ fn random_init() -> Value {
                "N": {"amt": 2 * n.len(), "ids": n}, "U": {"amt": 2 * u.len(), "ids": u}})
     };
     json!({"bal": {"a1": bal(40, 20, 60, vec![1, 2, 3], vec![1]), "a2": bal(20, 0, 10, vec![4], vec![2]), "a3": bal(0, 6, 0, vec![], vec![])},
-           "sup": {}, "data": {"N": [[1, 0, 0], [2, 0, 0], [3, 0, 0], [4, 0, 0]], "U": [[1, 0, 0], [2, 0, 0]]},
+           "sup": {}, "data": {"N": [[1, 1, 2, 3, 4], [2, 1, 2, 3, 4], [3, 1, 2, 3, 4], [4, 1, 2, 3, 4]], "U": [[1, 1, 2, 3, 4], [2, 1, 2, 3, 4]]},
            "ever": {"N": [1, 2, 3, 4, 5], "U": [1, 2]}, "ctr": {"N": 0, "U": 2}})
 }
 
 fn ins(op: &str, a: &str, r: &str, n: i64, ids: Vec<i64>, k: i64) -> Value {
-    json!({"op": op, "a": a, "r": r, "n": n, "ids": ids, "k": k, "f": "m", "v": 1})
+    json!({"op": op, "a": a, "r": r, "n": n, "ids": ids, "k": k, "f": if (n + k) % 2 == 0 { "b" } else { "d" }, "v": 7})
 }
 
 /// A random manifest.  `st` is the projection of the real ledger before the transaction: arguments are
